@@ -198,6 +198,9 @@ fn fd_verdict_known(obs: &mut Obs, what: &str, ana: f64, d1: f64, d2: f64, scale
     if !((ana - d).abs() <= rtol * s + 10.0 * err) {
         let msg = format!("{what}: analytic {ana:e} vs re-solved {d:e} (h: {d1:e}, h/2: {d2:e}, scale {s:e}, rtol {rtol:e})");
         match known {
+            // the plateau of the polar transform (finding POLAR) is of the order 1e-4..1e-2: larger
+            // deviations of a response function are not attributed to it
+            Some(id) if id == POLAR && (ana - d).abs() > 1e-2 * s => obs.fail(msg),
             Some(id) => obs.known_or_fail(id, msg),
             None => obs.fail(msg),
         }
@@ -269,7 +272,15 @@ pub fn check_pore(case: &PoreCase, obs: &mut Obs) {
     let rho_norm = s0.pore.profile.density.to_reduced().iter().map(|r| r * r).sum::<f64>().sqrt();
     let dilute = rho_norm < 1e-4;
     obs.class(if dilute { "dilute (|rho|_2 < 1e-4)" } else { "not dilute" });
-    let known_lr: Option<&str> = if dilute { Some(GMRES) } else { None };
+    // cylindrical pores: the response functions inherit the plateau of the polar transform (seen:
+    // dN/dT of a gc-PC-SAFT mixture 3.6e-3 off while -dOmega/dmu = N is 6e-3 off at 256 and 512 points)
+    let known_lr: Option<&str> = if dilute {
+        Some(GMRES)
+    } else if case.pore.geom == GeomSpec::Cylinder {
+        Some(POLAR)
+    } else {
+        None
+    };
     if dn_dmu.iter().chain(dn_dp.iter()).chain(dn_dt.iter()).any(|v| !v.is_finite()) {
         let msg = format!("non-finite derivative of a converged profile: dn_dmu {dn_dmu}, dn_dp {dn_dp}, dn_dt {dn_dt}");
         // signature of NAN_DERIV: the profile has points at the potential cut-off (walls), where
